@@ -1531,6 +1531,14 @@ func cmdStore(args []string) {
 	}
 	kinds["genesis_import.reads"] = genesisImportIsolation(c, mon)
 	kinds["str.list_queries_on_prefix_like_addresses"] = streamQueriesAgainstKeys(c, mon)
+	func() {
+		defer func() {
+			if r := recover(); r != nil {
+				mon.fail(-1, "the retention path panicked with several registrations at their limit: %v", r)
+			}
+		}()
+		kinds["retention.isolation_checks"] = pruningIsolation(c, mon)
+	}()
 	writeJSON(filepath.Join(*out, "stats_store.json"), map[string]interface{}{
 		"files": files, "evaluations": total, "distinct_nontrivial": len(distinct),
 		"rule":          "(x/beacon and x/enterprise: see rule_bcn_ent) sequences of real keeper store-accessor calls of x/wrkchain (params, highest id, WRKChains, storage limits, block records: set / get / has / listings ascending, descending, paginated, early stop, lowest height in state) and x/stream (params, streams keyed by address pairs of 1..255 bytes incl. byte-prefixes of one another: set / get / is / delete / listing with the pair parsed from the key, unencodable times) on a cached context of the real application; ids and heights from a boundary pool (1..4, 2^8, 2^16, 2^32, 2^63, 2^64-1); the translated accessors replay each sequence from the empty store (vm_compute) and a Go shadow map decides read-your-write / non-interference / listing completeness on the implementation",
@@ -1690,5 +1698,104 @@ func streamQueriesAgainstKeys(c *chain, mon *storeMon) int {
 			check("AllStreamsForReceiver("+who+")", got, err, func(r, _ string) bool { return r == who })
 		}
 	}()
+	return n
+}
+
+// pruningIsolation (C18): the retention path deletes records.  Three BEACONs and three WRKChains with an in-state limit
+// of 3 record six entries each, interleaved, through the keepers' record functions; after every record the set each
+// registration holds - read back one by one and through its listing - must be exactly its own newest three, whatever
+// the other registrations pruned.
+func pruningIsolation(c *chain, mon *storeMon) int {
+	ctx, _ := c.ctx().CacheContext()
+	n := 0
+	bk, wk := c.app.BeaconKeeper, c.app.WrkchainKeeper
+	bp := bk.GetParams(ctx)
+	bp.DefaultStorageLimit, bp.MaxStorageLimit = 3, 10
+	bk.SetParams(ctx, bp)
+	wp := wk.GetParams(ctx)
+	wp.DefaultStorageLimit, wp.MaxStorageLimit = 3, 10
+	wk.SetParams(ctx, wp)
+	var bids, wids []uint64
+	for i := 0; i < 3; i++ {
+		id, err := bk.RegisterNewBeacon(ctx, bcntypes.Beacon{Moniker: fmt.Sprintf("pb%d", i), Name: "n", Owner: c.addrOf(i).String()})
+		if err != nil {
+			return n
+		}
+		bids = append(bids, id)
+		wid, err := wk.RegisterNewWrkChain(ctx, fmt.Sprintf("pw%d", i), "n", "g", "t", c.addrOf(i))
+		if err != nil {
+			return n
+		}
+		wids = append(wids, wid)
+	}
+	shadowB, shadowW := map[uint64]map[uint64]string{}, map[uint64]map[uint64]string{}
+	check := func(step string) {
+		n++
+		for _, id := range bids {
+			var listed []uint64
+			for _, t := range bk.GetAllBeaconTimestamps(ctx, id) {
+				listed = append(listed, t.TimestampId)
+			}
+			if len(listed) != len(shadowB[id]) {
+				mon.fail(-1, "%s: BEACON %d lists %d timestamps %v, it holds %d of its own", step, id, len(listed), listed, len(shadowB[id]))
+			}
+			for ts, h := range shadowB[id] {
+				got, ok := bk.GetBeaconTimestampByID(ctx, id, ts)
+				if !ok || got.Hash != h {
+					mon.fail(-1, "%s: timestamp %d of BEACON %d is read back as (%v, %q), it was recorded as %q and is among that BEACON's newest three - another registration's pruning removed or replaced it", step, ts, id, ok, got.Hash, h)
+				}
+			}
+		}
+		for _, id := range wids {
+			var listed []uint64
+			for _, b := range wk.GetAllWrkChainBlockHashes(ctx, id) {
+				listed = append(listed, b.Height)
+			}
+			if len(listed) != len(shadowW[id]) {
+				mon.fail(-1, "%s: WRKChain %d lists %d block records %v, it holds %d of its own", step, id, len(listed), listed, len(shadowW[id]))
+			}
+			for h, bh := range shadowW[id] {
+				got, ok := wk.GetWrkChainBlock(ctx, id, h)
+				if !ok || got.Blockhash != bh {
+					mon.fail(-1, "%s: height %d of WRKChain %d is read back as (%v, %q), it was recorded as %q and is among that WRKChain's newest three - another registration's pruning removed or replaced it", step, h, id, ok, got.Blockhash, bh)
+				}
+			}
+		}
+	}
+	prune := func(m map[uint64]string) {
+		for len(m) > 3 {
+			lo := uint64(1<<64 - 1)
+			for k := range m {
+				if k < lo {
+					lo = k
+				}
+			}
+			delete(m, lo)
+		}
+	}
+	for round := 1; round <= 6; round++ {
+		for i := 2; i >= 0; i-- { // highest id first, so that a higher registration prunes while lower ones hold records
+			bid, wid := bids[i], wids[i]
+			hash := fmt.Sprintf("b%d-%d", bid, round)
+			tsID, _, err := bk.RecordNewBeaconTimestamp(ctx, bid, hash, uint64(1000+round))
+			if err == nil {
+				if shadowB[bid] == nil {
+					shadowB[bid] = map[uint64]string{}
+				}
+				shadowB[bid][tsID] = hash
+				prune(shadowB[bid])
+			}
+			check(fmt.Sprintf("after timestamp %d of BEACON %d", round, bid))
+			bh := fmt.Sprintf("w%d-%d", wid, round)
+			if _, err := wk.RecordNewWrkchainHashes(ctx, wid, uint64(10*round), bh, "p", "", "", ""); err == nil {
+				if shadowW[wid] == nil {
+					shadowW[wid] = map[uint64]string{}
+				}
+				shadowW[wid][uint64(10*round)] = bh
+				prune(shadowW[wid])
+			}
+			check(fmt.Sprintf("after height %d of WRKChain %d", 10*round, wid))
+		}
+	}
 	return n
 }
